@@ -1,7 +1,7 @@
 SPECIFICATION Spec
 CONSTANTS
   ReserveK = {1048572, 1048576, 900000}
-  AppendK = {64}
+  AppendK = {524288}
   MemberCounts = {30000, 65535, 35535}
   FieldCounts = {256, 257}
   Orders = {1, 32767, 32768, 65535, 65536}
@@ -11,5 +11,6 @@ CONSTANTS
   MaxOps = 100
   KeepHist = FALSE
 VIEW view
+CONSTRAINT SlackBound
 INVARIANTS NoWrap
 CHECK_DEADLOCK FALSE
